@@ -1175,9 +1175,57 @@ def check_C20(chk, R, S):
                           ["C20: a goto in geographic coordinates and a goto to the converted point move the node differently: %r vs %r" % (d[1], d[2])])
 
 
+def gen_interop_case(R, with_cancel=False):
+    nid = R.randrange(4)
+    acts_pool = ["settimer", "send", "bcast", "goto", "gotogeo", "speed", "range", "flag"] + (["cancel"] if with_cancel else [])
+    rules = []
+    for _ in range(R.randint(1, 5)):
+        trig = R.choice([("init",), ("timer", None), ("timer", R.randrange(3)), ("packet", None), ("telem",), ("finish",)])
+        acts = [gen_sim.gen_action(R, {"acts": acts_pool, "bad_send": 0.3}, 4, nid) for _ in range(R.randint(1, 5))]
+        rules.append({"trig": trig, "nth": R.choice([None, None, 0, 1]), "acts": acts})
+    cbs = [{"t": 0.0, "kind": "init", "arg": None}]
+    t = 0.0
+    for _ in range(R.randint(2, 12)):
+        t += R.choice([0.0, 0.1, 0.25, 0.7000000000000001 - 0.7, 1.0 / 3, R.uniform(0, 1)])
+        k = R.choice(["timer", "packet", "telem", "telem"])
+        arg = R.randrange(3) if k == "timer" else (R.randrange(20) if k == "packet" else gen_sim.gen_pos(R, 10))
+        cbs.append({"t": t, "kind": k, "arg": arg})
+    cbs.append({"t": t, "kind": "finish", "arg": None})
+    for cb in cbs:
+        if R.random() < 0.3:
+            cb["tracks"] = [(R.randrange(5), R.randrange(100)) for _ in range(R.randint(1, 3))]
+    return {"nid": nid, "ty": R.choice([0, 1, 2]), "rules": rules, "cbs": cbs}
+
+
+def check_C14(chk, R, S):
+    import interop_h as I
+    chk.rule = ("the same scripted protocol (requests incl. tracked variables, malformed destinations, controller "
+                "extension) fed identical callback sequences with identical times and ids under InteropEncapsulator and "
+                "under PythonEncapsulator with recording handlers; several encapsulators alive in one process; the "
+                "extension x provider matrix exhaustively; one probe of cancel_timer (known finding)")
+    cases = [gen_interop_case(R) for _ in range(S["sims"] * 3)]
+    run_plugin_class(chk, "interop-sessions", cases, I.run_interop_impl, I.interop_to_text, I.mon_C14)
+    # the known limitation is probed on every run
+    probe = {"nid": 0, "ty": 0, "rules": [{"trig": ("init",), "nth": None, "acts": [("settimer", 0, "abs", 1.0), ("cancel", 0)]}],
+             "cbs": [{"t": 0.0, "kind": "init", "arg": None}]}
+    lines = I.run_interop_impl(probe)
+    chk.record("interop-cancel-probe", probe, True)
+    for x in I.mon_C14(probe, lines):
+        chk.violation("interop-cancel-probe", {"probe": "cancel_timer", "site": "InteropProvider.cancel_timer",
+                                               "exception": "NotImplementedError"}, [x])
+    # extensions
+    for pname, ext, j, r in I.extension_matrix():
+        chk.record("extension-matrix", {"provider": pname, "extension": ext, "method": j}, True)
+        want = "ValueError" if j == "negative" else "ok"
+        if r != want:
+            chk.violation("extension-matrix", {"provider": pname, "extension": ext, "method": j},
+                          ["C14: %s extension, method %s under provider %s: %s (expected %s)" % (ext, j, pname, r, want)])
+    chk.exhaustive = True
+
+
 CHECKS = {"C01": check_C01, "C02": check_C02, "C03": check_C03, "C04": check_C04, "C05": check_C05, "C06": check_C06,
           "C07": check_C07, "C08": check_C08, "C09": check_C09, "C10": check_C10, "C11": check_C11, "C12": check_C12,
-          "C13": check_C13, "C15": check_C15, "C16": check_C16, "C17": check_C17, "C18": check_C18,
+          "C13": check_C13, "C14": check_C14, "C15": check_C15, "C16": check_C16, "C17": check_C17, "C18": check_C18,
           "C19": check_C19, "C20": check_C20}
 
 
